@@ -339,6 +339,10 @@ def write_ctables():
     import cpyx
     try:
         data = cpyx.extract_all(REPO)
+        # the Python twin of the rules (harness/checks_cwrap.py) says which exits through exceptions
+        # still own something; `exitLeaks_twins_agree` (DDProps/C19) compares with the Lean rules
+        import checks_cwrap
+        data['exit_leaks_py'] = checks_cwrap.exit_leaks(data)
         text = cpyx.lean_ctables(data)
     except Exception as e:  # noqa: BLE001
         # the reader itself failed: empty tables make every C19 obligation fail (never a stale
